@@ -416,20 +416,14 @@ func init() {
 		run: func(args [][]string) []string {
 			switch ai(args[0][0]) {
 			case 1:
-				init := ab(args[1])
-				must(os.WriteFile(ptttype.FN_PASSWD, init, 0o600))
-				env.reload(false)
-				c20Pending = map[ptttype.UID]*ptttype.UserecRaw{}
-				out := ok(c20Observe(init)...)
-				for _, g := range args[2:] {
-					if len(g) < 2 {
-						return []string{"9"}
-					}
-					out = append(out, c20Step(g)...)
-					out = append(out, oi(c20Field(c20Target(g))))
-					out = append(out, c20Observe(init)...)
+				return c20History(env, args, 0)
+			case 5: // the same history, .PASSWDS being a symbolic link to the record file (c20par.go)
+				if len(args[0]) != 2 {
+					return []string{"9"}
 				}
-				return out
+				return c20History(env, args, ai(args[0][1]))
+			case 6: // money operations from several goroutines of this process (c20par.go)
+				return c20Parallel(env, args)
 			case 4:
 				return c20Big(args)
 			case 2: // constants as the compiled program sees them
